@@ -48,6 +48,15 @@ func vfReach(label string) {}
 func vfNote(s string)      { vfNotes = append(vfNotes, s) }
 func vfConc(s string) string { return s }
 
+// vfSameFloat is float equality under which two NaNs are equal.
+func vfSameFloat(x, y float64) bool { return x == y || (x != x && y != y) }
+
+// vfGuardMap declares (to the engine) that map m may only be accessed while *mu is held.
+func vfGuardMap(name string, m interface{}, mu interface{}) {}
+
+// vfLocksHeld returns the number of mutexes currently held (engine only).
+func vfLocksHeld() int { return 0 }
+
 // vfSymbolic reports whether the harness runs inside the engine.
 func vfSymbolic() bool { return false }
 
